@@ -55,7 +55,7 @@ func (c tcase) line() string {
 	ts := make([]string, len(c.ents))
 	for i, e := range c.ents {
 		l := "-"
-		if e.kind == 'L' || e.kind == 'Y' {
+		if e.kind == 'L' || e.kind == 'Y' || e.kind == 'H' {
 			l = hexs(e.link)
 			if l == "" {
 				l = "-"
@@ -137,6 +137,9 @@ func run(c tcase) string {
 			case 'Y':
 				l0 = append(l0, tarEnt{e.name, tar.TypeSymlink, "", e.link})
 				l1 = append(l1, tarEnt{whName(e.name), tar.TypeReg, "", ""})
+			case 'H':
+				// a tar hard link: Linkname is the name of another archive entry (relative to the image root)
+				l0 = append(l0, tarEnt{e.name, tar.TypeLink, "", e.link})
 			default:
 				panic("kind")
 			}
@@ -311,7 +314,14 @@ func relLink(from, to string) string {
 // entry} to the k names; part/of selects a slice of the enumeration.
 func exhaustive(k, part, of, dmax int, emit func(tcase)) {
 	names := layout(k)
-	nopt := 4 + 2*k
+	// options per entry: F D M X, relative symlink to any entry, absolute symlink to any entry and — for up to 4
+	// names — tar hard link to any entry. With 5 names the hard links are not a separate option (19^5 graphs): the
+	// "absolute" option of entry i is written as a hard link instead of an absolute symlink when a hash of the
+	// enumeration index says so, so every graph shape is still loaded once, with a mix of the two link kinds.
+	nopt := 4 + 3*k
+	if k == 5 {
+		nopt = 4 + 2*k
+	}
 	total := 1
 	for i := 0; i < k; i++ {
 		total *= nopt
@@ -322,6 +332,7 @@ func exhaustive(k, part, of, dmax int, emit func(tcase)) {
 		}
 		c := tcase{dmax: dmax, hist: string(histModes[code%len(histModes)])}
 		x := code
+		mix := uint32(code) * 2654435761
 		for i := 0; i < k; i++ {
 			o := x % nopt
 			x /= nopt
@@ -331,12 +342,17 @@ func exhaustive(k, part, of, dmax int, emit func(tcase)) {
 				e.kind = "FDMX"[o]
 			case o < 4+k:
 				e.kind, e.link = 'L', relLink(names[i], names[o-4])
-			default:
+			case o < 4+2*k:
 				e.kind, e.link = 'L', "/"+names[o-4-k]
+				if k == 5 && (mix>>(uint(i)+7))&1 == 1 {
+					e.kind, e.link = 'H', names[o-4-k]
+				}
+			default:
+				e.kind, e.link = 'H', names[o-4-2*k]
 			}
 			c.ents = append(c.ents, e)
 		}
-		if k <= 4 {
+		if k <= 3 {
 			// small graphs: under every history mode
 			for _, m := range histModes {
 				c2 := c
@@ -345,7 +361,7 @@ func exhaustive(k, part, of, dmax int, emit func(tcase)) {
 			}
 			continue
 		}
-		emit(c) // 5 names: the history mode rotates with the enumeration index
+		emit(c) // 4 and 5 names: the history mode rotates with the enumeration index
 	}
 }
 
@@ -393,6 +409,30 @@ func randLink(r *rand.Rand, from string, names []string) string {
 	}
 }
 
+// randHardLink: the archive entry a hard link names, mostly as tar writes it (root-relative, no leading
+// slash), sometimes with a leading slash, unclean, missing, climbing above the root, or empty.
+func randHardLink(r *rand.Rand, names []string) string {
+	to := names[r.Intn(len(names))]
+	switch x := r.Intn(100); {
+	case x < 70:
+		return to
+	case x < 80:
+		return "/" + to
+	case x < 85:
+		return "./" + to
+	case x < 89:
+		return "//" + to
+	case x < 93:
+		return "zz"
+	case x < 97:
+		return "../" + to
+	case x < 99:
+		return to + "/c"
+	default:
+		return ""
+	}
+}
+
 func randCase(r *rand.Rand, dmax int) tcase {
 	c := tcase{dmax: dmax, hist: string(histModes[r.Intn(len(histModes))])}
 	if r.Intn(12) == 0 {
@@ -414,6 +454,9 @@ func randCase(r *rand.Rand, dmax int) tcase {
 			k := byte('L')
 			if r.Intn(25) == 0 {
 				k = 'Y'
+			}
+			if r.Intn(8) == 0 { // this hop is a hard link
+				k, l = 'H', names[i+1]
 			}
 			c.ents = append(c.ents, ent{names[i], k, l})
 		}
@@ -452,6 +495,8 @@ func randCase(r *rand.Rand, dmax int) tcase {
 			e.kind = 'X'
 		case x < 48:
 			e.kind, e.link = 'Y', randLink(r, nm, names)
+		case x < 57:
+			e.kind, e.link = 'H', randHardLink(r, names)
 		default:
 			e.kind, e.link = 'L', randLink(r, nm, names)
 		}
